@@ -365,7 +365,7 @@ impl Prop for C18 {
 		"A scenario is (schema S1, value, presentation, up to four schemas with a different canonical form: a name / field name / field order / symbol count / fixed size / primitive type / union order changed). Enumerated per scenario: \
 		 the intact message (format: C3 01 ++ Schema::rabin_fingerprint() ++ exactly the to_datum bytes, which the reference datum decoder turns back into the value; on the plain schema subset the fingerprint equals the little-endian bytes of the simulator's own bit-by-bit CRC-64-AVRO of the canonical form) read from the slice and under reader plans Fixed(1..12), one cut at every header offset, BufReader capacities around 10, with a trailer that must stay unread; \
 		 truncation at EVERY length 0..len; EVERY header byte replaced by EVERY other value (2550 damages); the message read under each other schema; to_single_object against sinks with Interrupted / hard error / Ok(0) at EVERY call index (accept-all and Fixed(1)). \
-		 An evaluation is one encode or decode. Non-trivial = a fault was applied or a refill boundary fell inside the header; distinct = distinct (check kind, header byte index or truncation region, reader kind, outcome, schema shape class). The intact message is also decoded under alternative-hint, partly ignoring (two masks), ignoring and blind targets on both input paths (what is kept, where the decoder stops, agreement of the two paths); every schema is parsed a second time from a spelling with a forward reference, which must give the same fingerprint and accept the same messages; messages above 2 KiB are cut at both ends, around the 8 / 16 / 64 KiB marks and at 150 seeded offsets instead of everywhere; one scenario in forty is deliberately large-scale."
+		 An evaluation is one encode or decode. Non-trivial = a fault was applied or a refill boundary fell inside the header; distinct = distinct (check kind, header byte index or truncation region, reader kind, outcome, schema shape class). One scenario in 150 is a LONG history: 250-1150 messages written through ONE serializer configuration (each must be marker ++ fingerprint ++ exactly the datum a fresh configuration writes), then read back slice by slice and one after the other from ONE source under five reader plans (values, and the bytes consumed in total). The intact message is also decoded under alternative-hint, partly ignoring (two masks), ignoring and blind targets on both input paths (what is kept, where the decoder stops, agreement of the two paths); every schema is parsed a second time from a spelling with a forward reference, which must give the same fingerprint and accept the same messages; messages above 2 KiB are cut at both ends, around the 8 / 16 / 64 KiB marks and at 150 seeded offsets instead of everywhere; one scenario in forty is deliberately large-scale."
 	}
 	fn assumptions(&self) -> Vec<String> {
 		vec![
